@@ -29,7 +29,7 @@
    are compared with the implementation; rounding accuracy of det/inverse over f64/Complex<f64> is tied and searched, not proved. *)
 From Coq Require Import List Arith.
 From OV Require Import Base.Panic Base.Arith Inst.QcInst Model.Vector Model.Matrix Model.Solve
-  Proofs.Matrix Proofs.LUPrim Proofs.LUSum Proofs.LU Proofs.LUSolve Proofs.LUInv Proofs.LUInvC Proofs.LUPanic Proofs.LUSolveC Proofs.LUKernel Proofs.LUQc Proofs.LUQcEx Proofs.LUReal.
+  Proofs.Matrix Proofs.LUPrim Proofs.LUSum Proofs.LU Proofs.LUSolve Proofs.LUInv Proofs.LUInvC Proofs.LUPanic Proofs.LUSolveC Proofs.LUKernel Proofs.LUQc Proofs.LUQcEx Proofs.LUReal Legacy.C02Refuted.
 Import ListNotations.
 
 Theorem lu_spec : forall (A : Arith), FieldLaws A -> PivLaws A -> forall M : matrix A, wf M -> rows M = cols M ->
@@ -147,6 +147,19 @@ Check solve_lu_complete_field_c02 : forall (A : Arith), FieldLaws A -> PivLaws A
   wf M -> rows M = cols M -> 1 <= rows M -> length b = rows M -> left_inverse (rows M) Nf (ent M) ->
   exists x, solve_lu M b = Ok x.
 Print Assumptions solve_lu_complete_field_c02.
+
+Theorem determinant_singular_zero_field : forall (A : Arith), FieldLaws A -> PivLaws A -> forall (M : matrix A), wf M -> rows M = cols M ->
+  ~ (exists Nf : nat -> nat -> A, forall i j, i < rows M -> j < rows M -> mprod (rows M) (ent M) Nf i j = delta i j) ->
+  determinant M = Ok zero.
+Proof. intros A FL PL M. exact (determinant_singular_field_lemma FL PL M). Qed.
+Check determinant_singular_zero_field : forall (A : Arith), FieldLaws A -> PivLaws A -> forall (M : matrix A), wf M -> rows M = cols M ->
+  ~ (exists Nf : nat -> nat -> A, forall i j, i < rows M -> j < rows M -> mprod (rows M) (ent M) Nf i j = delta i j) ->
+  determinant M = Ok zero.
+Print Assumptions determinant_singular_zero_field.
+Example determinant_singular_zero_field_nonvacuous : (* the all-ones witness of the repaired defect: the pre-repair code panics there *)
+  wf ones3 /\ rows ones3 = cols ones3 /\
+  ~ (exists Nf : nat -> nat -> AQ, forall i j, i < rows ones3 -> j < rows ones3 -> mprod (rows ones3) (ent ones3) Nf i j = delta i j).
+Proof. split; [reflexivity|]. split; [reflexivity|]. exact ones3_no_right_inverse. Qed.
 
 (* the hypotheses are met by the arithmetics the code is used at (proved instances, not assumptions) *)
 Example laws_hold_at_Qc : PivLaws AQ.  Proof. exact AQ_PivLaws. Qed.
